@@ -79,9 +79,9 @@ theorem callWrap_good {env : Env} {view : W → V} {fuel : Nat} {runChild : Fram
     (hc : Child env view fuel runChild) {k : CallKind} {i : StepIn W} {depth : Nat} {ro : Bool} {gas : Nat} {valueNZ : Bool}
     {db : Db W} {t : Nat} (hw : db.WF) (hg : gas < two64)
     (hN : ∀ w, view (i.neutralEff w) = view w)
-    (hv : env.byzantium = true → ro = true → k = .call → valueNZ = false)
     (r : Res W) (hr : r = callWrap env runChild k i depth ro gas valueNZ db t) :
-    Good env view fuel gas (ro || k == .static) db r ∧ (r.out.isErr = true → r.db.cur = db.cur) := by
+    Good env view fuel gas ((ro || k == .static) && !(k == .call && valueNZ)) db r ∧
+    (r.out.isErr = true → r.db.cur = db.cur) := by
   unfold callWrap at hr
   split at hr
   · subst hr; exact ⟨⟨Ext.refl _, Nat.le_refl _, by simp, by simp, by simp, fun _ _ => rfl⟩, fun _ => rfl⟩
@@ -110,16 +110,15 @@ theorem callWrap_good {env : Env} {view : W → V} {fuel : Nat} {runChild : Fram
         obtain ⟨ho, htr, hgl, hext, herr, hok, _⟩ := hfin
         refine ⟨⟨hext, Nat.le_trans hgl hgc.gas_le, by rw [ho]; exact hgc.no_panic, fun h => by rw [ho]; exact hgc.fuel_ok h,
           by rw [htr]; exact hgc.events, ?_⟩, by rw [ho]; exact herr⟩
-        intro hbyz hst
+        intro hbyz hst'
+        simp only [Bool.and_eq_true, Bool.not_eq_true'] at hst'
+        obtain ⟨hst, hnv⟩ := hst'
         -- view of db2 equals view of db
         have hv2 : view db2.cur = view db.cur := by
           rw [← hdb2]
           by_cases hk : (k == CallKind.call) = true
           · simp only [hk, if_true]
-            have hkc : k = .call := by simpa using hk
-            have hro : ro = true := by
-              subst hkc; simpa using hst
-            have := hv hbyz hro hkc
+            have : valueNZ = false := by simpa [hk] using hnv
             simp [this, hN]
           · simp [hk]
         cases hie : (runCode runChild i gas depth (ro || k == .static) db2 t).out.isErr with
